@@ -56,7 +56,7 @@ static void obs(const char *fmt, ...)
     obs_raw(tmp, n);
 }
 
-static void obs_hex(const void *p, size_t n)
+__attribute__((unused)) static void obs_hex(const void *p, size_t n)
 {
   static const char hd[] = "0123456789abcdef";
   const unsigned char *b = p;
@@ -81,7 +81,7 @@ static void obs_end(void)
 }
 
 /* parse hex (or "-") into a malloc'd buffer; returns length, -1 on error */
-static long hex_decode(const char *s, unsigned char **out)
+__attribute__((unused)) static long hex_decode(const char *s, unsigned char **out)
 {
   if(strcmp(s, "-") == 0) { *out = malloc(1); (*out)[0] = 0; return 0; }
   size_t n = strlen(s);
@@ -156,55 +156,100 @@ int main(void)
   h_lines = lines;
 
   int nofork = getenv("VERIF_NOFORK") != NULL;
+  /* Histories are run in batches, one forked child per batch (fork is expensive under ASan).  When a
+   * batch ends abnormally its output is discarded and the batch is re-run one child per history, so
+   * that a crash is attributed to the history that causes it. */
+  size_t batch = 64;
+  if(getenv("VERIF_BATCH")) batch = strtoul(getenv("VERIF_BATCH"), NULL, 10);
+  if(batch < 1) batch = 1;
   size_t i = 0;
   while(i < nlines) {
-    size_t j = i + 1;
-    while(j < nlines && strncmp(lines[j], "new", 3) != 0) j++;
-    size_t n = j - i;
-
-    if(nofork) { run_history(lines + i, n); i = j; continue; }
-
-    int pfd[2];
-    if(pipe(pfd) < 0) return 2;
-    fflush(stdout);
-    pid_t pid = fork();
-    if(pid < 0) return 2;
-    if(pid == 0) {
-      close(pfd[0]);
-      h_outfd = pfd[1];
-      alarm(20);
-      run_history(lines + i, n);
-      close(pfd[1]);
-      fflush(NULL);
-      exit(0);   /* exit(), not _exit(): let LeakSanitizer look */
+    if(nofork) {
+      size_t j = i + 1;
+      while(j < nlines && strncmp(lines[j], "new", 3) != 0) j++;
+      run_history(lines + i, j - i);
+      i = j;
+      continue;
     }
-    close(pfd[1]);
-    size_t got = 0;
-    char rb[65536];
-    int lastnl = 1;
-    for(;;) {
-      ssize_t r = read(pfd[0], rb, sizeof rb);
-      if(r < 0) { if(errno == EINTR) continue; break; }
-      if(r == 0) break;
-      for(ssize_t k = 0; k < r; k++) if(rb[k] == '\n') got++;
-      lastnl = rb[r - 1] == '\n';
-      fwrite(rb, 1, r, stdout);
+    /* find the end of this batch */
+    size_t bend = i, nh = 0;
+    while(bend < nlines && nh < batch) {
+      size_t j = bend + 1;
+      while(j < nlines && strncmp(lines[j], "new", 3) != 0) j++;
+      bend = j; nh++;
     }
-    close(pfd[0]);
-    int status = 0;
-    while(waitpid(pid, &status, 0) < 0 && errno == EINTR) ;
-    if(!lastnl) { fputs(" <cut>\n", stdout); got++; }
-    char why[64] = "";
-    if(WIFSIGNALED(status)) snprintf(why, sizeof why, "signal=%d", WTERMSIG(status));
-    else if(WIFEXITED(status) && WEXITSTATUS(status) != 0) snprintf(why, sizeof why, "exit=%d", WEXITSTATUS(status));
-    if(why[0] && got >= n) {
-      /* died after the last observation (e.g. leak report at exit): flag it on a line of its own
-       * is impossible without breaking alignment, so rewrite nothing and report on stderr */
-      fprintf(stderr, "HARNESS: history at op %zu ended abnormally after all observations: %s\n", i, why);
-      printf("#ABNORMAL-END %zu %s\n", i, why);
+    for(int attempt = 0; attempt < 2; attempt++) {
+      size_t per = attempt == 0 ? batch : 1;
+      char *acc = NULL; size_t acclen = 0, acccap = 0;
+      int bad = 0;
+      size_t h = i;
+      while(h < bend) {
+        size_t hend = h, k = 0;
+        while(hend < bend && k < per) {
+          size_t j = hend + 1;
+          while(j < bend && strncmp(lines[j], "new", 3) != 0) j++;
+          hend = j; k++;
+        }
+        size_t n = hend - h;
+        int pfd[2];
+        if(pipe(pfd) < 0) return 2;
+        fflush(stdout);
+        pid_t pid = fork();
+        if(pid < 0) return 2;
+        if(pid == 0) {
+          close(pfd[0]);
+          h_outfd = pfd[1];
+          alarm(60);
+          size_t q = h;
+          while(q < hend) {
+            size_t j = q + 1;
+            while(j < hend && strncmp(lines[j], "new", 3) != 0) j++;
+            run_history(lines + q, j - q);
+            q = j;
+          }
+          close(pfd[1]);
+          fflush(NULL);
+          exit(0);   /* exit(), not _exit(): let LeakSanitizer look */
+        }
+        close(pfd[1]);
+        size_t got = 0, start = acclen;
+        char rb[65536];
+        for(;;) {
+          ssize_t r = read(pfd[0], rb, sizeof rb);
+          if(r < 0) { if(errno == EINTR) continue; break; }
+          if(r == 0) break;
+          for(ssize_t z = 0; z < r; z++) if(rb[z] == '\n') got++;
+          if(acclen + r + 128 > acccap) { acccap = (acclen + r + 128) * 2; acc = realloc(acc, acccap); }
+          memcpy(acc + acclen, rb, r); acclen += r;
+        }
+        close(pfd[0]);
+        int status = 0;
+        while(waitpid(pid, &status, 0) < 0 && errno == EINTR) ;
+        char why[64] = "";
+        if(WIFSIGNALED(status)) snprintf(why, sizeof why, "signal=%d", WTERMSIG(status));
+        else if(WIFEXITED(status) && WEXITSTATUS(status) != 0) snprintf(why, sizeof why, "exit=%d", WEXITSTATUS(status));
+        if((why[0] || got != n) && attempt == 0 && per > 1) { bad = 1; break; }
+        if(acclen > start && acc[acclen - 1] != '\n') {
+          if(acclen + 16 > acccap) { acccap = (acclen + 16) * 2; acc = realloc(acc, acccap); }
+          memcpy(acc + acclen, " <cut>\n", 7); acclen += 7; got++;
+        }
+        if(why[0] && got >= n) {
+          fprintf(stderr, "HARNESS: history at op %zu ended abnormally after all observations: %s\n", h, why);
+          char t[128]; int tl = snprintf(t, sizeof t, "#ABNORMAL-END %zu %s\n", h, why);
+          if(acclen + tl + 1 > acccap) { acccap = (acclen + tl + 1) * 2; acc = realloc(acc, acccap); }
+          memcpy(acc + acclen, t, tl); acclen += tl;
+        }
+        for(; got < n; got++) {
+          char t[128]; int tl = snprintf(t, sizeof t, "CRASH %s\n", why[0] ? why : "short");
+          if(acclen + tl + 1 > acccap) { acccap = (acclen + tl + 1) * 2; acc = realloc(acc, acccap); }
+          memcpy(acc + acclen, t, tl); acclen += tl;
+        }
+        h = hend;
+      }
+      if(!bad) { if(acc) fwrite(acc, 1, acclen, stdout); free(acc); break; }
+      free(acc);
     }
-    for(; got < n; got++) printf("CRASH %s\n", why[0] ? why : "short");
-    i = j;
+    i = bend;
   }
   fflush(stdout);
   return 0;
